@@ -247,6 +247,16 @@ theorem rt_time (t : Time) (ht : timeOk t = true) (sc : Scan) (rest : List UInt8
   obtain ⟨sc', e, h', _⟩ := lexRead_time t ht sc rest fuel h hs hd hf
   exact ⟨sc', e, h'⟩
 
+/-- **rt_datetime**: a timestamp token — date, `T`, time, optional fraction, `Z` / `Z Name` / `±hh:mm Name` with
+valid calendar fields and a zone name the zone table resolves (`dtOk`) — comes back as its token text -/
+theorem rt_datetime (t : DateTime) (ht : dtOk t = true) (sc : Scan) (rest : List UInt8) (fuel : Nat)
+    (h : At sc (encDateTime t ++ rest)) (hs : sc.stash = []) (hd : Delim rest)
+    (hf : (encDateTime t).length + 3 ≤ fuel) :
+    ∃ sc', lexRead fuel sc = .ok { sc := sc', tok := .val (lexImage (.dateTime t)) } ∧ At sc' rest := by
+  have he : enc (.dateTime t) true = encDateTime t := by rw [enc]
+  obtain ⟨sc', e, hp⟩ := (tok_datetime t ht).2 sc rest fuel (by rw [he]; exact h) hs hd (by rw [he]; exact hf)
+  exact ⟨sc', by rw [lexImage_eq]; exact e, hp.1⟩
+
 theorem rt_coord (a b : Flt) (ha : decTextOk a.txt = true) (hb : decTextOk b.txt = true) (sc : Scan)
     (rest : List UInt8) (fuel : Nat) (h : At sc (enc (.coord a b) true ++ rest)) (hs : sc.stash = [])
     (hd : Delim rest) (hf : (enc (.coord a b) true).length + 3 ≤ fuel) :
@@ -270,21 +280,64 @@ theorem rt_grid (md : OTags) (cols : Cols) (rows : Rows) (ver : List Char)
 
 /-! ### the property for the model -/
 
-/-- **C01 for every value accepted by the decidable well-formedness predicate `wfV`** (defined in
-`Hs/Lemmas/ZincRtWf.lean`): identifier tag and column names, dict / meta / row keys in ascending order, id
-alphabets, capitalised XStr types other than `C`, finite numbers printed as decimal texts with a unit of the
-table, dates and times chrono accepts, coordinates, lists, dicts and grids (at least one column, distinct
-column names, row keys among the columns, meta dicts absent or non-empty, `ver` = "3.0", a single-column grid
-has no missing cell), nested at most 63 deep (`depthOk`: the reader's `MAX_NESTING_DEPTH` is 64).
+/-- **C01 for the model, for the explicit decidable well-formedness predicate `wfV`** (defined in
+`Hs/Lemmas/ZincRtWf.lean`), all 18 kinds, any nesting below the reader's limit:
 
-What is missing for `C01_full` of the property text: `wfV` rejects `dateTime` values (the token lemma for
-timestamps — date, time, offset and zone name through `parseDateTime` — is not proved yet); all other 17 kinds
-are covered at any nesting depth below the reader's limit. -/
-theorem C01_partial : C01_full (fun v => wfV v = true ∧ depthOk v = true) := by
+* tag, column, dict-key names are identifiers (`isIdent`); dict / meta / row keys strictly ascending
+  (`keysSorted`: the `BTreeMap` order — `dictOf` rebuilds the same `Tags`);
+* Ref ids non-empty over the id alphabet (`isRefId`), any display name; Symbol bodies `isSymBody`;
+  XStr types capitalised ASCII names other than the reserved `C` (`isXStrType`), any XStr value, any Str, any Uri;
+* numbers: NaN, ±INF, or a finite number whose text is a decimal `f64::from_str` accepts and whose unit is a
+  symbol of the unit table made of unit characters (`numOk`); coordinates with decimal components;
+* dates, times, timestamps whose texts chrono accepts and whose fields are what the text says (`dateOk`,
+  `timeOk`, `dtOk`: zone name resolvable through the zone table);
+* grids: `ver` = "3.0", at least one column, distinct identifier column names, meta dicts absent or non-empty,
+  row keys among the column names, a single-column grid has no missing cell (`metaShape`, `colsShape`,
+  `rowsShape`); grid meta, column meta (first, middle, last column), Null cells, missing cells, zero rows and
+  nested grids are all covered;
+* nesting at most 63 deep (`depthOk`): the reader rejects anything deeper (`MAX_NESTING_DEPTH = 64`).
+
+Relative to the property's text the residual hypotheses are therefore: the nesting bound (the property says
+"at any nesting depth", the repaired reader refuses depth ≥ 64), `ver` = "3.0" (the writer always prints 3.0),
+grid/column meta not `Some(empty dict)` (written like `None`, read back as `None`), the single-column missing
+cell (known finding Z4), and the XStr type `C`.  Numbers and timestamps are compared lexically (`lexImage`):
+`parse (fmt x) = x` for `f64` and chrono's text round trip are trusted-base assumptions validated by the
+harness. -/
+theorem C01_wf : C01_full (fun v => wfV v = true ∧ depthOk v = true) := by
   intro v h
   rw [lexImage_eq]
   exact rt_of_wf v h.1 h.2
 
+/-! ### the residual hypotheses of `wfV` / `depthOk` cannot be dropped (model of the code as it is) -/
+
+def deepList : Nat → Val
+  | 0 => .list .nil
+  | n + 1 => .list (.cons (deepList n) .nil)
+
+/-- 63 levels of nesting round-trip (by `C01_wf`), … -/
+theorem deep63_ok : fromBytes (encode (deepList 63)) = .ok (lexImage (deepList 63)) :=
+  C01_wf _ (by decide +kernel)
+/-- … the 64th does not: the reader's `MAX_NESTING_DEPTH` makes the property's "at any nesting depth" false -/
+theorem C01_cex_depth : (fromBytes (encode (deepList 64))).isOk = false := by decide +kernel
+
+/-- the writer always prints `ver:"3.0"`: another version string does not come back -/
+theorem C01_cex_ver :
+    isOk (fromBytes (encode (.grid .none (.cons ['a'] .none .nil) .nil ['2', '.', '0'])))
+      (fun v => match v with | .grid _ _ _ ver => ver == ['3', '.', '0'] | _ => false) = true := by decide +kernel
+
+/-- grid meta `Some(empty dict)` is written like `None` and read back as `None` -/
+theorem C01_cex_empty_meta :
+    isOk (fromBytes (encode (.grid (.some .nil) (.cons ['a'] .none .nil) .nil ['3', '.', '0'])))
+      (fun v => match v with | .grid .none _ _ _ => true | _ => false) = true := by decide +kernel
+
+/-- known finding Z4: in a single-column grid a missing cell is written `N` and comes back as a Null cell -/
+theorem C01_cex_single_missing :
+    isOk (fromBytes (encode (.grid .none (.cons ['a'] .none .nil) (.cons .nil .nil) ['3', '.', '0'])))
+      (fun v => match v with | .grid _ _ (.cons (.cons _ .null .nil) .nil) _ => true | _ => false) = true := by
+  decide +kernel
+
+/-- the XStr type `C` is the Coord literal of the grammar -/
+theorem C01_cex_xstr_C : (fromBytes (encode (.xstr ['C'] ['x']))).isOk = false := by decide +kernel
 
 /-! ### the hypotheses are satisfiable: concrete non-trivial inputs -/
 
@@ -323,11 +376,20 @@ example : timeOk ⟨1, 2, 3, 500000000, "01:02:03.500".toList⟩ = true := by de
 /-- a leap second -/
 example : timeOk ⟨23, 59, 59, 1000000000, "23:59:60".toList⟩ = true := by decide +kernel
 example : decTextOk "-33.8688".toList = true ∧ decTextOk "151.2093".toList = true := by decide +kernel
+/-- timestamps: UTC, an offset zone with a fraction, a zone with offset zero, an `Etc/GMT-3` style name -/
+example : dtOk ⟨0, 0, 0, "UTC".toList, "UTC".toList, "2024-02-29T12:34:56Z".toList⟩ = true := by decide +kernel
+example : dtOk ⟨0, 0, -18000, "New_York".toList, "America/New_York".toList,
+    "2024-02-29T12:34:56.789-05:00".toList⟩ = true := by decide +kernel
+example : dtOk ⟨0, 0, 0, "London".toList, "Europe/London".toList, "2024-01-01T00:00:00Z".toList⟩ = true := by
+  decide +kernel
+example : dtOk ⟨0, 0, 10800, "GMT-3".toList, "Etc/GMT-3".toList, "2024-01-01T00:00:00.123456789+03:00".toList⟩ = true := by
+  decide +kernel
 
 def exNum : Val := .num ⟨⟨0, "21.5".toList⟩, some "°C".toList⟩
 def exRow1 : Tags := .cons "id".toList (.ref "a-1".toList (some "Room \"1\"".toList))
   (.cons "temp".toList exNum (.cons "ts".toList (.date ⟨2024, 2, 29, "2024-02-29".toList⟩) .nil))
-def exRow2 : Tags := .cons "temp".toList .null .nil
+def exRow2 : Tags := .cons "temp".toList .null (.cons "ts".toList
+  (.dateTime ⟨0, 0, -18000, "New_York".toList, "America/New_York".toList, "2024-02-29T12:34:56.789-05:00".toList⟩) .nil)
 def exRow3 : Tags := .nil
 def exInner : Val :=
   .grid .none (.cons "id".toList .none (.cons "temp".toList .none (.cons "ts".toList .none .nil)))
@@ -354,9 +416,9 @@ example : GoodVs (.cons exNum (.cons exInner .nil)) := goods_of_wf _ (by decide 
 example : keysIdent exRow1 = true ∧ keysSorted exRow1.keys = true ∧ GoodT exRow1 :=
   ⟨by decide, by decide, goodt_of_wf _ (by decide +kernel)⟩
 
-/-- the round trip of the example grid, through `C01_partial` -/
-example : fromBytes (encode exGrid) = .ok (lexImage exGrid) := C01_partial exGrid (by decide +kernel)
-example : fromBytes (encode exZeroRows) = .ok (lexImage exZeroRows) := C01_partial exZeroRows (by decide +kernel)
+/-- the round trip of the example grids, through `C01_wf` -/
+example : fromBytes (encode exGrid) = .ok (lexImage exGrid) := C01_wf exGrid (by decide +kernel)
+example : fromBytes (encode exZeroRows) = .ok (lexImage exZeroRows) := C01_wf exZeroRows (by decide +kernel)
 
 end examples
 
